@@ -706,6 +706,15 @@ def translate_fn(tr, it, out_lines, accepts=False, calls=False):
                 txt = f"(let {tr.cname(pat[1])} := {x} in {txt})"
         out_lines.append(f"(* [{it.name}] neither underflows a usize nor fails an assert *)\n"
                          f"Definition {it.name}_accepts {zparams} : bool :=\n  {txt}.\n")
+        # the value each usize parameter has after the function's own re-bindings (`let divs = divs + divs % 2 - 2;`)
+        for n, t in ptys:
+            if t != "Z":
+                continue
+            v = tr.cname(n)
+            for g in reversed([g for g in tr.guards if not isinstance(g, str) and g[1][0] == "pbind" and g[1][1] == n and g[3] == "Z"]):
+                v = f"(let {tr.cname(n)} := {g[2]} in {v})"
+            out_lines.append(f"(* the number [{it.name}] works with in place of its parameter [{n}] *)\n"
+                             f"Definition {it.name}_norm_{n} {zparams} : Z :=\n  {v}.\n")
     tr.guards = None
     tr.sigs[it.name] = ([t for _, t in ptys], rty)
 
